@@ -112,7 +112,7 @@ Lemma force_unlock_linv : forall cfg st sender id st', linv cfg st -> force_unlo
   linv cfg st' /\ s_conn st id = None /\ s_synths st id = [] /\
   s_conn st' = s_conn st /\ s_accs st' = s_accs st /\ s_mult st' = s_mult st /\ s_deleg st' = s_deleg st /\
   s_vals st' = s_vals st /\ s_supply st' = s_supply st /\ s_offset st' = s_offset st /\ s_last st' = s_last st /\
-  (forall id0, id0 <> id -> s_locks st' id0 = s_locks st id0).
+  (forall id0, id0 <> id -> s_locks st' id0 = s_locks st id0) /\ s_synths st' = s_synths st /\ s_now st' = s_now st.
 Proof.
   intros cfg st sender id st' I H. unfold force_unlock in H.
   destruct (s_locks st id) as [l|] eqn:Hl; [|discriminate].
